@@ -64,6 +64,21 @@ pub fn run(sh: &mut Shell, cl: &CommandLine, cmd: &Command,
     let mut cr = CommandResult::new();
     let hfile = history::get_history_file();
     let path = Path::new(hfile.as_str());
+
+    let tokens = cmd.tokens.clone();
+    let args = parsers::parser_line::tokens_to_args(&tokens);
+
+    let show_usage = args.len() > 1 && (args[1] == "-h" || args[1] == "--help");
+    let opt = OptMain::from_iter_safe(args);
+
+    // `history add` creates the database when it does not exist yet,
+    // everything else needs an existing one.
+    if let Ok(OptMain { cmd: Some(SubCommand::Add { timestamp: ts, input }), .. }) = &opt {
+        let ts = ts.unwrap_or(0 as f64);
+        add_history(sh, ts, input);
+        return cr;
+    }
+
     if !path.exists() {
         let info = "no history file";
         print_stderr_with_capture(info, &mut cr, cl, cmd, capture);
@@ -77,12 +92,6 @@ pub fn run(sh: &mut Shell, cl: &CommandLine, cmd: &Command,
             return cr;
         }
     };
-
-    let tokens = cmd.tokens.clone();
-    let args = parsers::parser_line::tokens_to_args(&tokens);
-
-    let show_usage = args.len() > 1 && (args[1] == "-h" || args[1] == "--help");
-    let opt = OptMain::from_iter_safe(args);
     match opt {
         Ok(opt) => {
             match opt.cmd {
